@@ -9,7 +9,7 @@ from gen_programs import Gen, Scope
 
 PID = "C02"
 MANIFEST = {
-    "text": "11 Coq theorems.  'No effect on values' at full strength over the evaluator model: STORE-EXTENSION INVARIANCE "
+    "text": "18 Coq theorems.  'No effect on values' at full strength over the evaluator model: STORE-EXTENSION INVARIANCE "
             "(a simulation over every expression form, FunctionDef::call and every depth: evaluating from a store related "
             "by an injective renaming of function-cell indices gives the renamed outcome, scope chain and a related store; "
             "generic in operators/built-ins that commute with renamings, discharged arm by arm for the transcribed "
@@ -20,14 +20,20 @@ MANIFEST = {
             "existing cell is named) — without the latter the statement is refuted in the model AND on the real "
             "interpreter (known finding F52, fix proposed).  LET-ABSTRACTION is proved for head contexts and cell-free "
             "values (PARTIAL; the statement for arbitrary contexts / several occurrences is kept as the Prop "
-            "C02_let_abstraction_full), and the renaming hypothesis for the FULL built-in dispatcher (EvalFull.builtin_full: "
-            "list/string/aggregate built-ins, sort_by/group_by/count_by) is kept as the Prop C02_ops_commute_full — for "
-            "those the clause is decided by search.  Older theorems: purity of the scope chain, existing bindings "
+            "C02_let_abstraction_full).  REL round: the renaming hypothesis for the FULL built-in dispatcher "
+            "(EvalFull.builtin_full: aggregates, list/string/record built-ins incl. unique/includes — Value::equals is blind "
+            "to cell indices —, convert/round/random/to_number/to_string/join, sort_by/group_by/count_by) is now PROVED "
+            "(C02_ops_commute_full_proved; proofs/RelPure.v: one relation-generic lemma per arm, proofs/C02OpsFull.v), so "
+            "store-extension invariance, the eval-twice theorems and the head-context let-abstraction are also theorems "
+            "about the evaluator the EVAL streams run (the six *_full / *_fullbi theorems; 18 theorems in all).  "
+            "Older theorems: purity of the scope chain, existing bindings "
             "untouched, store only grows.  PARTIAL by nature: determinism across processes, hash seeds and earlier "
             "evaluations is a property of the running code that no Gallina function can fail; it is decided by running "
             "the same generated programs in several processes and with a dirtied heap and comparing with the "
             "(deterministic) model; evaluate-twice and let-abstraction are ALSO searched on the implementation, incl. the "
-            "boundary shapes the side conditions single out (naming an existing anonymous function from a do-block)",
+            "boundary shapes the side conditions single out (naming an existing anonymous function from a do-block), and "
+            "over the full built-in set with function values flowing through every list/record/aggregate built-in and the "
+            "sort_by/group_by/count_by callbacks (stream TWICE-FULL: law on the implementation + eval_full correspondence)",
     "note": "trusted: Coq kernel + vm_compute; evaluator transcription validated by the EVAL stream; the runtime "
             "behaviour the model cannot exhibit (HashMap iteration order, allocation order) is explored, not proved",
     "design_ref": "DESIGN.md section 6 C02; notes/C02.md",
